@@ -130,6 +130,10 @@ func main() {
 			r.cfg = cfg.String()
 			r.Count("packages", len(p.Pkgs))
 			r.Count("functions", len(p.Funcs))
+			r.Count("renamed_anchor_functions", len(p.Renamed))
+			for _, rn := range p.Renamed {
+				fmt.Printf("NOTE property=%s renamed function: %s\n", *prop, rn)
+			}
 			for _, rule := range spec.Rules {
 				// a rule that loses its anchor (function renamed, shape not recognised) or crashes is UNDECIDED on its
 				// own; the other rules of the property still run and report
@@ -220,6 +224,9 @@ func finishNoEvidence(results []*Result, prop string, verif string) int {
 func doDump(p *Prog, what string) {
 	g := p.CG()
 	switch {
+	case what == "anchors":
+		b, _ := json.MarshalIndent(p.dumpAnchors(), "", " ")
+		fmt.Println(string(b))
 	case what == "funcs":
 		for _, fn := range p.Funcs {
 			fmt.Printf("%-60s %s blocks=%d synthetic=%q\n", p.FuncName(fn), p.Pos(fn.Pos()), len(fn.Blocks), fn.Synthetic)
